@@ -1,5 +1,6 @@
 """Shared plumbing of the check modules: monitors on in every workload, coverage, tallies."""
 import collections
+import os
 
 from pv import cover, gen, interp, monitors, strict
 from pv.runner import case_rng
@@ -122,3 +123,34 @@ def cov_floor(extra, labels_min_hit=1):
         if lines and len(hit.get(label, [])) < labels_min_hit:
             missed.append("anchored function never executed: %s" % label)
     return missed
+
+
+def suite_under_monitors(monitor, workdir):
+    """Thorough-tier workload: the repository's own test-suite runs with the monitors attached (pytest plugin).  Returns
+    (counters, reports) for the given monitor; reports are (what, witness-with-test-id)."""
+    import glob
+    import json
+    import subprocess
+    from pv import env
+    os.makedirs(workdir, exist_ok=True)
+    out = os.path.join(workdir, "suite")
+    e = dict(os.environ)
+    e["PYTHONPATH"] = os.pathsep.join([os.path.join(env.VERIF, "lib"), env.PROV_SRC])
+    e["PYTEST_PLUGINS"] = "pv.pytest_plugin"
+    e["PV_PLUGIN_OUT"] = out
+    e["PYTHONDONTWRITEBYTECODE"] = "1"
+    p = subprocess.run([env.PYTHON, "-m", "pytest", "-q", "-p", "no:cacheprovider", "--timeout=900", "--continue-on-collection-errors", "-n", "8",
+                        os.path.join(env.PROV_SRC, "prov", "tests")], env=e, cwd=workdir, capture_output=True, timeout=1800)
+    counters, reports = collections.Counter(), []
+    files = glob.glob(out + ".*.json")
+    for f in files:
+        d = json.load(open(f))
+        for k, v in d["counts"].items():
+            if k.startswith(monitor + "."):
+                counters["suite." + k] += v
+        for v in d["violations"]:
+            if v["monitor"] == monitor:
+                reports.append((v["what"], v["witness"]))
+    counters["suite.processes_reporting"] = len(files)
+    tail = p.stdout.decode(errors="replace").strip().splitlines()[-1:] if p.stdout else []
+    return counters, reports, (tail[0] if tail else "")
